@@ -180,8 +180,8 @@ class OracleClient:
         if hello[0] != "hello" or not hello[1].startswith(env.REPO + os.sep):
             raise HarnessError("oracle imported selfies from %r" % (hello,))
 
-    def query(self, K, call, with_steps=False):
-        key = (K, call)
+    def query(self, K, call, warn_mode="ignore"):
+        key = (K, call, warn_mode)
         self.queries += 1
         if key in self.memo:
             self.hits += 1
@@ -191,7 +191,7 @@ class OracleClient:
         Ksend = K
         if K is None and zlib.crc32(repr(call).encode()) & 1:
             Ksend = ("preset", "default")
-        _send(self.p.stdin, ("q", Ksend, call))
+        _send(self.p.stdin, ("q", Ksend, call, warn_mode))
         rep = _recv(self.p.stdout)
         if rep[0] != "ok":
             raise HarnessError("oracle failure: %r" % (rep,))
@@ -221,7 +221,7 @@ def cold_query(K, call, hashseed="31337"):
     return pickle.loads(p.stdout)
 
 
-def cold_history(ops, passive, hashseed):
+def cold_history(ops, passive, hashseed, warn_mode="ignore"):
     """A whole history in a cold ``python`` process under another hash seed
     (no zygote, no fork): 'identical across processes and hash seeds'."""
     e = dict(os.environ)
@@ -230,7 +230,7 @@ def cold_history(ops, passive, hashseed):
     e["VERIF_REPO"] = env.REPO
     p = subprocess.run(
         [sys.executable, "-m", "sim.oracle_server", "--history"], env=e, cwd=env.VERIF,
-        input=pickle.dumps((ops, passive), protocol=4), stdout=subprocess.PIPE, timeout=120)
+        input=pickle.dumps((ops, passive, warn_mode), protocol=4), stdout=subprocess.PIPE, timeout=120)
     if p.returncode != 0:
         raise HarnessError("cold interpreter failed on a history (%d)" % p.returncode)
     return pickle.loads(p.stdout)
@@ -271,8 +271,8 @@ class SimClient:
             raise HarnessError("exception in simulated child:\n" + out[1])
         return out[1]
 
-    def history(self, ops, passive, timeout=180.0):
-        return self._raw(b"H", pickle.dumps((ops, passive), protocol=4), timeout)
+    def history(self, ops, passive, timeout=180.0, warn_mode="ignore"):
+        return self._raw(b"H", pickle.dumps((ops, passive, warn_mode), protocol=4), timeout)
 
     def presets(self):
         return self._raw(b"P", b"", 60.0)
